@@ -321,6 +321,91 @@ func runC04(c *Ctx) {
 			}
 		}
 	}
+	// a second signing attempt on headers a first attempt has already written the algorithm into: the
+	// inserted alg binds every later signer exactly like one the caller had set
+	for _, st := range []string{"sign1", "untagged", "signature", "countersignature"} {
+		for _, firstOutcome := range []string{"ok", "signer-error"} {
+			for _, reuse := range []string{"same-object", "headers-copied-by-value", "maps-shared"} {
+				for _, ext := range exts {
+					algA, algB := cose.AlgorithmES256, cose.AlgorithmPS256
+					h := cose.Headers{Protected: cose.ProtectedHeader{int64(4): []byte("kid")}, Unprotected: cose.UnprotectedHeader{}}
+					parent := &cose.Sign1Message{Headers: cose.Headers{Protected: cose.ProtectedHeader{int64(1): cose.AlgorithmES256}}, Payload: []byte("parent"), Signature: mon.FixedSig}
+					signWith := func(hh *cose.Headers, sg cose.Signer) error {
+						switch st {
+						case "sign1":
+							m := &cose.Sign1Message{Headers: *hh, Payload: []byte("p")}
+							e := m.Sign(gen.Entropy, ext, sg)
+							*hh = m.Headers
+							return e
+						case "untagged":
+							m := &cose.UntaggedSign1Message{Headers: *hh, Payload: []byte("p")}
+							e := m.Sign(gen.Entropy, ext, sg)
+							*hh = m.Headers
+							return e
+						case "signature":
+							m := &cose.Signature{Headers: *hh}
+							e := m.Sign(gen.Entropy, sg, []byte{0x40}, []byte("p"), ext)
+							*hh = m.Headers
+							return e
+						default:
+							m := &cose.Countersignature{Headers: *hh}
+							e := m.Sign(gen.Entropy, sg, parent, ext)
+							*hh = m.Headers
+							return e
+						}
+					}
+					first := &mon.SpySigner{Alg: algA}
+					if firstOutcome == "signer-error" {
+						first.Err = mon.ErrInjected
+					}
+					cls := fmt.Sprintf("second-attempt/%s/first=%s/%s/ext=%s", st, firstOutcome, reuse, gen.ExternalClass(ext))
+					in := map[string]any{"family": "second signing attempt", "cell": cls}
+					var e1, e2 error
+					var algAfterFirst int64
+					var hasAfterFirst bool
+					second := &mon.SpySigner{Alg: algB}
+					if guard(rec, "second signing attempt", in, func() {
+						e1 = signWith(&h, first)
+						algAfterFirst, hasAfterFirst = lookupAlgGo(h.Protected)
+						h2 := h
+						switch reuse {
+						case "headers-copied-by-value":
+							h2 = cose.Headers{Protected: h.Protected, Unprotected: h.Unprotected, RawProtected: h.RawProtected, RawUnprotected: h.RawUnprotected}
+						case "maps-shared":
+							h2 = cose.Headers{Protected: h.Protected, Unprotected: h.Unprotected}
+						}
+						e2 = signWith(&h2, second)
+					}) {
+						continue
+					}
+					_ = e1
+					rec.Eval(1)
+					rec.Class(cls)
+					a, has := algAfterFirst, hasAfterFirst
+					for _, tbs := range second.Got {
+						idx := 1
+						if st == "signature" || st == "countersignature" {
+							idx = 2
+						}
+						ta, thas := algInTBS(tbs, idx)
+						rec.Event("second-attempt:key-call-observed")
+						if thas && ta != int64(algB) {
+							rec.Violate("key-invoked", "second-attempt/"+st, fmt.Sprintf("the second signer (alg %d) was handed bytes whose protected alg is %d", int64(algB), ta), in)
+						}
+						if !thas && len(ext) == 0 {
+							rec.Violate("key-invoked", "second-attempt/"+st+"/no-alg", "the second signer signed bytes without alg although there is no external data", in)
+						}
+					}
+					if has && a == int64(algA) && (second.Calls != 0 || e2 == nil) {
+						rec.Violate("key-invoked", "second-attempt/"+st+"/overwritten", fmt.Sprintf("the headers already said alg %d, yet a signer of alg %d was invoked (calls=%d, err=%v)", a, int64(algB), second.Calls, e2), in)
+					}
+					if second.Calls == 0 {
+						rec.Event("second-attempt:refused")
+					}
+				}
+			}
+		}
+	}
 	rec.Exhaustive = !c.Thorough
 	rec.Require("key-call-observed", 1000)
 	rec.Require("key-call-forbidden", 1000)
@@ -746,4 +831,21 @@ func c04runCell(c *Ctx, rec *mon.Recorder, cell c04cell, idx int) {
 func mustMarshal(m *cose.Sign1Message) []byte {
 	b, _ := m.MarshalCBOR()
 	return b
+}
+
+// lookupAlgGo finds label 1 in a Go-side protected map under any integer spelling.
+func lookupAlgGo(m map[any]any) (int64, bool) {
+	for k, v := range m {
+		if nl, ok := refNorm(k); ok && nl == int64(1) {
+			switch x := v.(type) {
+			case cose.Algorithm:
+				return int64(x), true
+			case int64:
+				return x, true
+			case int:
+				return int64(x), true
+			}
+		}
+	}
+	return 0, false
 }
